@@ -83,7 +83,11 @@ func (ce *convergenceElem) handler() {
 				"status": cs.String(),
 			}).Debug("Forwarding ConvergenceStatus to Manager")
 
-			ce.convChnl <- cs
+			// The Manager might not read any more, because it is waiting for this handler to stop.
+			select {
+			case ce.convChnl <- cs:
+			case <-ce.stopSyn:
+			}
 		}
 	}
 }
